@@ -1,6 +1,7 @@
 import Shuttle.Drive.Codec
 import Shuttle.Drive.C05
 import Shuttle.Model.AOD
+import Shuttle.Model.StdMoves
 namespace Shuttle.Drive.C08
 open Shuttle Shuttle.Drive Shuttle.AOD
 
@@ -34,8 +35,40 @@ def playIdx (sites : List Site) : State → List PathVal → Nat → Except (Rej
     | .ok s' => playIdx sites s' ps (i + 1)
     | .error e => .error (e, i)
 
+def showPaths : Option (List PathVal) → String
+  | none => "err"
+  | some ps => "ok " ++ showList C05.showPathVal ps
+
+def gemini? (gl gr rows cs rs csp gs : Sexp) : Option StdMoves.Gemini := do
+  some ⟨← grid? gl, ← grid? gr, ← Sexp.int? rows, ← Sexp.int? cs, ← Sexp.rat? rs, ← Sexp.rat? csp, ← Sexp.rat? gs⟩
+
+/-- the library move models: `(model <move> args…)` -/
+def handleModel : List Sexp → String
+  | [.atom "wp", wps, pick, drop] =>
+    match Sexp.listOf? grid? wps, Sexp.bool? pick, Sexp.bool? drop with
+    | some wps, some pick, some drop => showPaths (StdMoves.moveByWaypoints wps pick drop)
+    | _, _, _ => "bad-input"
+  | [.atom "cz", zone, cx, cy, qx, qy, dx, dy] =>
+    match grid? zone, intList? cx, intList? cy, intList? qx, intList? qy, Sexp.rat? dx, Sexp.rat? dy with
+    | some z, some cx, some cy, some qx, some qy, some dx, some dy => showPaths (StdMoves.czMove z cx cy qx qy dx dy)
+    | _, _, _, _, _, _, _ => "bad-input"
+  | [.atom "rearrange", zone, sx, sy, dx, dy] =>
+    match grid? zone, intList? sx, intList? sy, intList? dx, intList? dy with
+    | some z, some sx, some sy, some dx, some dy => showPaths (StdMoves.rearrange z sx sy dx dy)
+    | _, _, _, _, _ => "bad-input"
+  | [.atom "vshift", gl, gr, rows, cs, rs, csp, gs, off, col, rs'] =>
+    match gemini? gl gr rows cs rs csp gs, Sexp.int? off, Sexp.int? col, intList? rs' with
+    | some G, some off, some col, some r => showPaths (StdMoves.verticalShift G off col r)
+    | _, _, _, _ => "bad-input"
+  | [.atom "gr01", gl, gr, rows, cs, rs, csp, gs, rs'] =>
+    match gemini? gl gr rows cs rs csp gs, intList? rs' with
+    | some G, some r => showPaths (StdMoves.grZeroToOne G r)
+    | _, _ => "bad-input"
+  | _ => "bad-input"
+
 /-- `(exec (site…) (occupied site…) (path…))` -/
 def handle : Sexp → String
+  | .list (.atom "model" :: rest) => handleModel rest
   | .list [.atom "exec", sites, occ, paths] =>
     match Sexp.listOf? site? sites, Sexp.listOf? site? occ, Sexp.listOf? pathVal? paths with
     | some sites, some occ, some paths =>
